@@ -3,26 +3,29 @@ package store
 // C04: the snapshot store plus the log always rebuilds the applied state.
 //
 // The harness drives the REAL store.fsmSnapshot (both branches), snapshotDueNext/dbModified,
-// FSMSnapshot.Persist/Release with the OnRelease closure, snapshot.StagingDir/WALWriter,
-// snapshot.Store.Create/DueNext/SetDueNext/List, snapshot.Sink (Open/Write/Close/Cancel),
-// snapshot.FullSink, the streamers, SnapshotCatalog.Scan and SnapshotSet.ResolveFiles through
-// histories of
+// FSMSnapshot.Persist/Release with the Finalizer and the OnRelease closure, store.fsmRestore,
+// snapshot.StagingDir/WALWriter, snapshot.Store.Create/Open/DueNext/SetDueNext/List, snapshot.Sink
+// (Open/Write/Close/Cancel), snapshot.FullSink, the streamers, snapshot.Restore,
+// SnapshotCatalog.Scan and SnapshotSet.ResolveFiles through histories of
 //
-//	write batch (page 0 / page 1)            one applied log entry
-//	snapshot with outcome                    ok | released without Persist | Persist fails (finalizer) |
-//	                                         checkpoint busy | process dies entering Sink.Close |
+//	write batch (page 0 / page 1 / both)     one applied log entry
+//	snapshot with outcome                    ok | released without Persist | Persist fails (sink write error) |
+//	                                         checkpoint busy | process dies after Persist, before Sink.Close |
 //	                                         a LOAD is applied between FSM.Snapshot and Persist
 //	LOAD                                     database replaced (new lineage), FULL_NEEDED
 //	BOOT                                     Store.ReadFrom: a no-op entry, database replaced (new lineage)
 //	                                         outside the log, FULL_NEEDED, full snapshot at once
 //	INSTALL                                  follower snapshot install: the leader's image (the same database,
-//	                                         every page rewritten by an entry this node never received) is
-//	                                         written into a sink of the node's snapshot store, the sink is
-//	                                         closed, the snapshot is opened and handed to the REAL fsmRestore
+//	                                         every page rewritten by an entry this node never received; a
+//	                                         database file, or a database file and a WAL file) is written into
+//	                                         a sink of the node's snapshot store, the sink is closed, the
+//	                                         snapshot is opened and handed to the REAL fsmRestore
 //	touch                                    database file looks modified from outside (dbModified)
-//	restart                                  crash: staging directory removed, a new empty database, the newest
-//	                                         snapshot opened (Store.Open) and handed to the REAL fsmRestore,
-//	                                         log entries after it re-applied
+//	restart                                  the process ends and starts again: FAST start when the
+//	                                         clean_snapshot marker matches the database file (file kept, WAL
+//	                                         dropped, no restore) or SLOW start (a new empty database, the
+//	                                         newest snapshot opened and handed to the REAL fsmRestore); then
+//	                                         the log entries after the newest snapshot are re-applied
 //
 // in a PAGE-VERSION abstraction: the database is (lineage; for page 0 and page 1: version, number
 // of times written); a write batch sets one page (or both: the page-heavy batch) to a fresh version
@@ -33,19 +36,21 @@ package store
 //
 // Symbolic run: file system, SQLite handle, Checkpointer, protobuf and CRC are models (fsmodel.go).
 // Native replay: a real temporary directory, a real SQLite database (tables t0, t1, lin), the real
-// Checkpointer, real protobuf/CRC; the restored database is obtained with the real
-// snapshot.Store.Open + snapshot.Restore (native.go). The harness code is the same in both.
+// Checkpointer, real protobuf/CRC (native.go). In both worlds the database a snapshot rebuilds is
+// obtained with the real snapshot.Store.Open + snapshot.Restore. The harness code is the same in
+// both.
 //
 // Oracle (from the property statement): after every published or installed snapshot and at every
 // restart, the newest snapshot's resolved files, applied in order, give exactly the database the
 // node had applied at that snapshot's index; every WAL file of the chain was cut from the lineage
 // of the base and after the base (a token older than the base it is applied to is never in a
-// chain); after an install and after a restart (restore + log replay) the LIVE database is the one
-// the node had applied.
+// chain); after an install, a boot and a restart (restore or kept file, then log replay) the LIVE
+// database is the one the node had applied - nothing lost, reverted or applied twice.
 //
-// The hashicorp/raft side (takeSnapshot) is the protocol model vcSnapshot: FSM.Snapshot on the FSM
-// thread; then (snapshot thread) maybe give up before Persist; SnapshotStore.Create; Persist; on a
-// Persist error Cancel; else Close; Release last.
+// The hashicorp/raft side is a protocol model: takeSnapshot = vcHist.snapshot (FSM.Snapshot on the
+// FSM thread; then (snapshot thread) maybe give up before Persist; SnapshotStore.Create; Persist; on
+// a Persist error Cancel; else Close; Release last), installSnapshot + restore = vcHist.install,
+// the start-up sequence of Store.Open = vcHist.restart, Store.ReadFrom = vcHist.boot.
 
 import (
 	"io"
@@ -145,12 +150,11 @@ type vcEnv struct {
 	mt     int64 // modification-time counter
 
 	// native world
-	tags         map[string]vcTag
-	lastRestored string
-	touches      int
-	nrestored    int
-	nimages      int // leader images made so far (both worlds)
-	ntemps       int // symbolic world: scratch files made by createTemp
+	tags      map[string]vcTag
+	touches   int
+	nrestored int
+	nimages   int // leader images made so far (both worlds)
+	ntemps    int // symbolic world: scratch files made by createTemp
 }
 
 var vcEnvCur *vcEnv
@@ -479,31 +483,32 @@ func (e *vcEnv) tagWAL(path string) vcTag {
 	return vcTag{ok: ok, lin: lin, seq: seq}
 }
 
-// restore: the database a node gets from snapshot id. Symbolic: the base token with the WAL
-// tokens applied in the resolved order (what snapshot.Restore + db.ReplayWAL do; their byte-level
-// fidelity is C10's subject). Native: the real Store.Open + snapshot.Restore, then the tables.
-func (e *vcEnv) restore(id string, dbFile string, walFiles []string) (vcState, bool) {
-	if !verifSymbolic() {
-		return e.nativeRestore(id)
+// restore: the database a node gets from snapshot id, in both worlds through the real
+// snapshot.Store.Open (resolution of the chain, streamer) and the real snapshot.Restore into a
+// scratch file. Symbolic: the WAL replay inside Restore is the token fold vcReplayWAL and the
+// result is decoded from the token; native: real SQLite, read back with SQL.
+func (e *vcEnv) restore(id string) (vcState, bool) {
+	_, rc, err := e.s.snapshotStore.Open(id)
+	if err != nil {
+		return vcState{}, false
 	}
-	n, ok := vcFS.nodes[dbFile]
+	e.nrestored++
+	tmp := filepath.Join(e.root, "restored-"+string(rune('a'+e.nrestored%26))+".db")
+	_, err = snapshot.Restore(rc, tmp)
+	rc.Close()
+	if err != nil {
+		return vcState{}, false
+	}
+	if !verifSymbolic() {
+		return vcReadDBFile(tmp)
+	}
+	n, ok := vcFS.nodes[tmp]
 	if !ok {
 		return vcState{}, false
 	}
 	st, _, ok := vcDecodeDB(n.data)
-	if !ok {
-		return vcState{}, false
-	}
-	for _, wp := range walFiles {
-		wn, ok := vcFS.nodes[wp]
-		if !ok {
-			return vcState{}, false
-		}
-		if _, _, ok := vcFoldWAL(&st, wn.data); !ok {
-			return vcState{}, false
-		}
-	}
-	return st, true
+	vcFS.del(tmp)
+	return st, ok
 }
 
 // ---------------------------------------------------------------- history driver
@@ -874,7 +879,7 @@ func (h *vcHist) checkNewest(tag string, wantIdx uint64) (vcState, uint64, bool)
 	}
 	verifAssert("C04-"+tag+"-chain-in-checkpoint-order", inOrder)
 
-	got, ok := h.e.restore(m.ID, dbFile, walFiles)
+	got, ok := h.e.restore(m.ID)
 	verifAssert("C04-"+tag+"-restorable", ok)
 	want := h.stateAt[m.Index]
 	if h.fullForgotten && got != want {
@@ -907,7 +912,6 @@ func (h *vcHist) restart() {
 	if !verifSymbolic() {
 		h.e.nativeClose()
 	}
-	h.e.lastRestored = ""
 	h.e.openStore()
 	got, idx, any := h.checkNewest("restart", 0)
 	if !any {
@@ -1072,6 +1076,17 @@ var vcScenarios = [][]int{
 	{stW0, stSnapOK, stW1, stSnapDie, stW0, stSnapOK},
 	// skipped full snapshot on a new node, then the real one
 	{stW0, stSnapSkip, stW1, stSnapOK, stW0, stSnapOK},
+	// a follower installs a snapshot made of a database file and a WAL file, then snapshots
+	// incrementally on top of it (the chain starts with the installed WAL file)
+	{stW0, stSnapOK, stInstallWAL, stW1, stSnapOK, stW0, stSnapOK},
+	// a new node installs such a snapshot before it has applied anything
+	{stInstallWAL, stW0, stSnapOK, stW01, stSnapSkip, stW1, stSnapOK},
+	// install (database file only), a skipped incremental snapshot, the next one carries two WAL files
+	{stW0, stSnapOK, stInstall, stW0, stSnapSkip, stW1, stSnapOK},
+	// boot, page-heavy write, incremental snapshot, install on top
+	{stW0, stSnapOK, stBoot, stW01, stSnapOK, stInstall, stW1, stSnapOK},
+	// an install replaces a database for which a LOAD had asked for a full snapshot
+	{stW0, stSnapOK, stLoad, stInstallWAL, stW0, stSnapOK},
 }
 
 func VerifC04Scenarios() {
@@ -1102,9 +1117,16 @@ func VerifC04History() {
 	p := verifChoice("prefix", len(vcPrefixes))
 	k, kinds := 2, int(stInstall)+1
 	if verifTier() > 0 {
-		k = 4
+		k = 3
 	}
 	vcRun(vcPrefixes[p], k, kinds)
+}
+
+// VerifC04HistoryDeep (thorough tier): every history of 4 free steps over the same 8 kinds from the
+// first three start states (new node; one full snapshot; a retained staged WAL).
+func VerifC04HistoryDeep() {
+	p := verifChoice("prefix", 3)
+	vcRun(vcPrefixes[p], 4, int(stInstall)+1)
 }
 
 // VerifC04Retained: the family the property singles out ("a retained staged WAL combined with a
@@ -1174,9 +1196,7 @@ func VerifC04Twin() {
 	st := h.e.snaps
 	metas, err := st.List()
 	verifAssume(err == nil && len(metas) == 1)
-	dbFile, walFiles, err := snapshot.VerifC04Resolve(st, metas[0].ID)
-	verifAssume(err == nil)
-	got, ok := h.e.restore(metas[0].ID, dbFile, walFiles)
+	got, ok := h.e.restore(metas[0].ID)
 	verifAssume(ok)
 	verifAssert("C04-twin-restored-is-the-older-state", got.p[0] == h.stateAt[1].p[0])
 }
